@@ -95,6 +95,7 @@ package concurrent_map
 //@     invariant forall k int :: (k in m.m) ==> (k in atlock(m.m)) && valOK(m.m[k])
 
 //@ func (m *Map) RangeDo [C11]
+//@   log mapRangeDo
 //@   requires m != nil
 //@   loop 0:
 //@     invariant m != nil
